@@ -821,6 +821,11 @@ def explore_b(ctx, name, bound, cap):
                     if len(prefix) < len(e[1]):
                         e[1], e[2], e[3] = prefix, key, b
     capped = bool(queue)
+    top = sorted(outcomes.items(), key=lambda kv: -kv[1])[:3]
+    ctx.sample({"C04b_scenario": name, "preemption_bound": bound,
+                "executions": total,
+                "most_frequent_outcomes(outcomes,states,clock,trace,threads)":
+                [[k[:160], v] for k, v in top]}, limit=12)
     for sig, (cnt, prefix, key, b) in viol_sigs.items():
         ctx.violation(sig, "scenario %s, schedule %s (%d preemption bound): "
                       "%s; outcome %s" % (name, prefix, bound, b, key),
